@@ -1147,6 +1147,9 @@ def _apply_rolling(
 
     if mask is not None:
         mask = _val_to_numpy(mask)
+        if mask.dtype.kind != "b":
+            # the row-aligned kernels test mask[i] for every row: positions are not a per-row flag
+            raise TypeError("mask must be a boolean array")
 
     rolling_1d_func = rolling_1d_funcs[operation]
     values = _val_to_numpy(values, as_list=True)
@@ -1742,6 +1745,9 @@ def _apply_cumulative(
 
     if mask is not None:
         mask = _val_to_numpy(mask)
+        if mask.dtype.kind != "b":
+            # the row-aligned kernels test mask[i] for every row: positions are not a per-row flag
+            raise TypeError("mask must be a boolean array")
 
     # Map operation names to reduction functions
     try:
